@@ -57,7 +57,7 @@ Ltac tmap :=
   cbn [Tr Trl Trc Trce Tc Tv Tsr fst snd option_map map];
   rewrite ?lookup_var_T, ?assign_var_T, ?alloc_cell_T, ?set_cell_T, ?alloc_obj_T, ?set_obj_T,
     ?set_global_T, ?emit_T, ?bind_params_T, ?to_str_T, ?truthy_T, ?eval_binop_T, ?eval_unop_T,
-    ?index_get_T, ?index_set_T, ?call_method_T, ?nth_obj_T, ?map_length;
+    ?index_get_T, ?index_set_T, ?call_method_T, ?nth_obj_T, ?map_length, ?declares_fold;
   repeat rewrite alloc_cell_T' by reflexivity;
   cbn [Tr Trl Trc Trce Tc Tv Tsr fst snd option_map map].
 
